@@ -1,6 +1,7 @@
 import Driver.Hist
 import Driver.File
 import Driver.Proto
+import Driver.Conc
 import Std.Data.HashMap
 open Driver Jamm
 
@@ -164,6 +165,42 @@ def main (args : List String) : IO UInt32 := do
     for (k, v) in l.cnt.toList do
       IO.println s!"STAT {k}={v}"
     IO.println s!"SUMMARY histories={l.nHist} bad={l.nBad}"
+    return 0
+  | ["conc", path] =>
+    let lines ← IO.FS.lines path
+    let mut defs : ConcDefs := {}
+    let mut cur : Option ConcRun := none
+    let mut nrun := 0
+    let mut nbad := 0
+    for line in lines do
+      let f := line.splitOn " "
+      match f.headD "" with
+      | "run" =>
+        cur := some { header := line, program := field line "program", ncommits := (field line "commits").toNat!, nwriters := (field line "writers").toNat! }
+      | "def" =>
+        if f.getD 1 "" == "init" then defs := { defs with init := defs.init ++ [(unhex (f.getD 2 ""), canonVal (f.getD 3 ""))] }
+        else defs := { defs with commits := defs.commits ++ [((f.getD 2 "").toNat!, unhex (f.getD 3 ""), canonVal (f.getD 4 ""))] }
+      | "wcommit" =>
+        cur := cur.map (fun r => { r with wcommits := r.wcommits ++ [((f.getD 1 "").toNat!, (f.getD 2 "").toNat!, (f.getD 3 "").toNat!, f.getD 4 "")] })
+      | "robs" =>
+        cur := cur.map (fun r => { r with robs := r.robs ++ [(f.getD 1 "" ++ "." ++ f.getD 2 "", (field line "seen").toNat!, field line "d1", field line "d2")] })
+      | "overlap" => cur := cur.map (fun r => { r with overlap := (f.getD 1 "0").toNat! })
+      | "final" => cur := cur.map (fun r => { r with final := f.getD 1 "" })
+      | "deadlock" => cur := cur.map (fun r => { r with deadlock := some (f.getD 1 "") })
+      | "tpanic" => cur := cur.map (fun r => { r with tpanics := r.tpanics ++ [line] })
+      | "end" =>
+        match cur with
+        | some r =>
+          nrun := nrun + 1
+          match checkRun defs r with
+          | none => pure ()
+          | some why =>
+            nbad := nbad + 1
+            IO.println s!"CONCBAD {r.header} ## {why}"
+          cur := none
+        | none => pure ()
+      | _ => pure ()
+    IO.println s!"SUMMARY runs={nrun} bad={nbad}"
     return 0
   | ["images", path] =>
     -- image stream: `<id> <path> <pagesize>` per line; the model's view of each image
